@@ -28,7 +28,10 @@ DECIDED = ["(a) no device write before the file is recognised / size-validated; 
            "metadata / journal slots accepted only after checksum validation",
            "(b, partial) panic sites (bounds, slice ranges, overflow, unwrap of slice conversions, copy lengths, allocation sizes) in the device-byte parsers discharged",
            "every extent recovery queues for retirement lies inside the device",
-           "(c, partial) the recovery scan's sector and the zero-scan's remaining byte count strictly advance on every back edge"]
+           "(c, partial) the recovery scan's sector and the zero-scan's remaining byte count strictly advance on every back edge",
+           'a store whose open failed never writes from drop / flush_all (every device write behind `initialized`)',
+           '(b) panic-freedom of the device-byte parsers: bounds / overflow / slice / unwrap / allocation-size obligations discharged by a Fourier-Motzkin prover, 10 residual sites listed with reasons',
+           '(c) scan loops advance']
 NOT_DECIDED = ["(b) at the 10 residual sites of spec/c17_residual.json (visitor-callback arithmetic, sizes / location of indexed records) and outside the parser scope",
                "(c) termination of callees outside the parser scope"]
 TECHNIQUE = ("static analysis: MIR dominance / guard / who-may-call rules via a custom rustc_private driver, plus a flow-sensitive value "
